@@ -3,5 +3,6 @@
 cd "$(dirname "$0")" || exit 2
 mkdir -p build/ext evidence replays
 /venv/bin/python mc/loader.py || exit 2
+/venv/bin/python -c "import sys; sys.path.insert(0, \".\"); from mc import loader; loader.install(); from mc import ccd; ccd.ensure_ccd()" || exit 2
 /venv/bin/python -c "import jsonschema, numpy, networkx, msgpack" || exit 2
 echo "[setup] ok"
